@@ -20,6 +20,8 @@ pub enum Parsed<'a> {
 impl<'a> Parsed<'a> {
     /// Recursively parse a value
     pub fn from_value(value: &'a Value) -> Result<Self, Error> {
+        #[cfg(jsonlogic_rs_verif)]
+        crate::verif::yield_point("parse");
         Operation::from_value(value)?
             .map(Self::Operation)
             // .or(Operation::from_value(value)?.map(Self::Operation))
@@ -39,6 +41,8 @@ impl<'a> Parsed<'a> {
     }
 
     pub fn evaluate(&self, data: &'a Value) -> Result<Evaluated, Error> {
+        #[cfg(jsonlogic_rs_verif)]
+        crate::verif::yield_point("eval");
         match self {
             Self::Operation(op) => op.evaluate(data),
             Self::LazyOperation(op) => op.evaluate(data),
